@@ -347,3 +347,74 @@ PROPS["C13"] = {
         "thorough": {"exhaustive_workloads": 60},
     },
 }
+
+
+def _miri_aux(root, harness, tier, seed, env):
+    """M3 of C14: Miri schedule exploration of harness/src/bin/c14_miri.rs.  Started
+    alongside the native shards; returns a callable that waits and yields a shard-style report."""
+    import subprocess, re
+    n = 16 if tier == "quick" else 192
+    lo = (seed % 1000) * 1000
+    e = dict(env)
+    e["MIRIFLAGS"] = f"-Zmiri-disable-isolation -Zmiri-many-seeds={lo}..{lo + n}"
+    try:
+        p = subprocess.Popen(["cargo", "+nightly", "miri", "run", "--offline", "--bin", "c14_miri"], cwd=harness, env=e,
+                             stdout=subprocess.PIPE, stderr=subprocess.STDOUT, text=True)
+    except OSError as ex:
+        return {"evaluations": 0, "inconclusive": [f"cannot start miri: {ex}"]}
+
+    def wait():
+        try:
+            out, _ = p.communicate(timeout=900 if tier == "quick" else 3600)
+        except subprocess.TimeoutExpired:
+            p.kill()
+            return {"evaluations": 0, "inconclusive": ["miri run exceeded its wall-clock limit (inconclusive, not a violation)"]}
+        done = out.count("c14_miri: done")
+        rep = {"evaluations": done, "counters": {"m3.miri_seeds_completed": done, "m3.miri_seeds_requested": n}, "findings": [], "inconclusive": []}
+        kinds = []
+        if "the evaluated program deadlocked" in out:
+            kinds.append(("miri | deadlock", "Miri: the evaluated program deadlocked"))
+        if "Undefined Behavior" in out:
+            kinds.append(("miri | undefined behaviour", "Miri reported Undefined Behavior"))
+        if re.search(r"[Dd]ata race", out):
+            kinds.append(("miri | data race", "Miri reported a data race"))
+        if "panicked at" in out:
+            kinds.append(("miri | panic", "a thread panicked under Miri"))
+        for sig, what in kinds:
+            m = re.search(r"seed (\d+)", out)
+            tail = out[-1800:]
+            rep["findings"].append({"signature": sig, "count": 1, "detail": f"{what} (seeds {lo}..{lo+n}); output tail: {tail}",
+                                    "witness": {"miri_flags": e["MIRIFLAGS"], "program": "harness/src/bin/c14_miri.rs",
+                                                "regen": {"property": "C14", "tier": tier, "seed": seed, "shard": 0, "nshards": 16, "case": 0, "profile": "checked"}}})
+        if not kinds and (p.returncode != 0 or done < n):
+            rep["inconclusive"].append(f"miri exited with status {p.returncode} after {done}/{n} seeds without a recognised diagnosis: {out[-600:]}")
+        return rep
+    return wait
+
+
+PROPS["C14"] = {
+    "level": "exploration",
+    "rule": "three monitors over the instrumented lock (hook cfg cfb_verif). M1 (1 process): single-threaded drive through every "
+            "read-only method / iterator shape / handle operation on trees with left, right and child links, recording per thread the "
+            "guards held at every acquisition; a request while the same thread holds a guard on the same lock is a violation (no lucky "
+            "schedule needed). M2 forced (3 processes x <= 40 rounds): 2 readers + the writer thread; a reader about to re-acquire is "
+            "parked between its two critical sections until a write request is outstanding, so a hazard becomes a real deadlock, "
+            "certified by the wait-for state (every live worker requested-not-granted > 2 s). M2 stress (12 processes): 1-8 readers x "
+            "50-400 read-only calls against 30-200 writer operations (append, flush, set_len, read) with random micro-delays at "
+            "Request/Released; every reader observation of entry().len() must equal the directory-entry length after some whole writer "
+            "operation overlapping it. M3: Miri (-Zmiri-many-seeds, 16 seeds quick / 192 thorough) on a 2-reader + writer program. "
+            "evaluations = rounds + Miri seeds; distinct_nontrivial = distinct acquisition sites (M1) + distinct grant-order prefixes (M2)",
+    "assumptions": COMMON_ASSUMPTIONS + [
+        "'all calls complete' is decided on a recorded all-waiting state held for 2 s, never on a wall-clock timeout alone",
+        "handles are !Send: the writer is the thread that created them",
+    ],
+    "checked_share": 1.0,
+    "aux": [_miri_aux],
+    "quick": {"budget_s": 25},
+    "thorough": {"budget_s": 300},
+    "floors": {
+        "quick": {"m1.distinct_acquisition_sites": 8, "m1.handle_scripts": 10, "m2.forced_rounds": 60, "m2.stress_rounds": 100, "m2.reader_results_checked": 20000,
+                  "m3.miri_seeds_completed": 16},
+        "thorough": {"m2.stress_rounds": 1000, "m3.miri_seeds_completed": 192},
+    },
+}
